@@ -930,7 +930,24 @@ func sx(v uint64, w uint8) int64 {
 	return int64(v<<sh) >> sh
 }
 
+// narrowWidth returns a smaller standard width that holds both operands' values (0 if none).
+func narrowWidth(a, b *Term) uint8 {
+	hi := maxU(a.UHi, b.UHi)
+	for _, w := range []uint8{8, 16, 32} {
+		if w < a.W && hi <= mask(w) {
+			return w
+		}
+	}
+	return 0
+}
+
 func (c *Ctx) UDiv(a, b *Term) *Term {
+	if !(a.IsConst() && b.IsConst()) && b.ULo > 0 {
+		if w := narrowWidth(a, b); w != 0 {
+			// both operands are small: divide in the narrow width (cheaper to bit-blast)
+			return c.ZExt(c.UDiv(c.Extract(a, w), c.Extract(b, w)), a.W)
+		}
+	}
 	return c.bvBin(OUDiv, a, b, func(x, y uint64) (uint64, bool) {
 		if y == 0 {
 			return 0, false
@@ -941,6 +958,11 @@ func (c *Ctx) UDiv(a, b *Term) *Term {
 func (c *Ctx) URem(a, b *Term) *Term {
 	if b.IsConst() && b.Val != 0 && a.UHi < b.Val {
 		return a
+	}
+	if !(a.IsConst() && b.IsConst()) && b.ULo > 0 {
+		if w := narrowWidth(a, b); w != 0 {
+			return c.ZExt(c.URem(c.Extract(a, w), c.Extract(b, w)), a.W)
+		}
 	}
 	return c.bvBin(OURem, a, b, func(x, y uint64) (uint64, bool) {
 		if y == 0 {
